@@ -61,6 +61,9 @@ def r10_3(F, R):
 
 
 def narrow_only(fn, site):
+    import os
+    if os.environ.get("TXV_ARM_ALL"):
+        return True
     """K3 is armed only for Add/Sub/Mul on <=16-bit integers (R10.2); other K3/K4 are not decided"""
     if site.kind in ("K1", "K2"):
         return True
@@ -92,7 +95,7 @@ def run(F, R, tier):
         def __getattr__(self, name):
             return getattr(self.R, name)
     not_arbitrary = lambda fn: "arbitrary::Arbitrary" not in fn.name  # fuzzing support generated by derive(Arbitrary), not on the conversion path
-    seen = run_pps(F, R, "R10", ENTRIES, kinds, CHA, armed=armed, crate_scope={"tfm.lib", "tftopl.bin", "pltotf.bin"}, fn_filter=not_arbitrary, floor_fns=300, floor_sites=60,
+    seen = run_pps(F, R, "R10", ENTRIES, kinds, CHA, armed=armed, crate_scope={"tfm.lib", "tftopl.bin", "pltotf.bin", "common.lib"}, fn_filter=not_arbitrary, floor_fns=300, floor_sites=60,
                    what=": arbitrary bytes / text must give a result or a documented error")
     return ("Static analysis (partial claim). Decided: explicit panic / unwrap-family sites and all <=16-bit Add/Sub/Mul overflow asserts reachable from "
             "tfm_to_pl / pl_to_tfm are discharged (constant, dominating guard, type, audited) or reproduced findings. NOT decided: slice bounds and range "
